@@ -305,6 +305,8 @@ TEMPLATES = [
     dict(prefix="C", lt="$", rus=["[$]CC[$]"], egs=[], rt="$", dist="uniform", suffix="O"),
     dict(prefix="N", lt="<", rus=["[<]CC([>])c1ccccc1", "[<]C[N+](C)(C)[>]"], egs=[], rt=">", dist="log_normal", suffix="[Si]"),
     dict(prefix="", lt="", rus=["[<]CC[>]"], egs=["[<]Cl", "[>]Br"], rt="", dist="poisson", suffix=""),
+    dict(prefix="CC(C)", lt=">", rus=["[<]CC[>]"], egs=[], rt="<", dist="gauss", suffix="OC(=O)C"),
+    dict(prefix="CC(C)(C)", lt="$", rus=["[$]CC[$]"], egs=[], rt="$", dist="gauss", suffix="NC(=O)"),
 ]
 NPAR = {"gauss": 2, "flory_schulz": 1, "schulz_zimm": 2, "uniform": 2, "log_normal": 2, "poisson": 1}
 
@@ -393,6 +395,14 @@ def run_structure_case(case, g, tier, res, on_path):
             c.prove(tok.generate_string(False) == T["rus"][i], "token text recovered", detail("a repeat unit's text differs"))
         for i, tok in enumerate(st.end_tokens[: len(T["egs"])]):
             c.prove(tok.generate_string(False) == T["egs"][i], "token text recovered", detail("an end group's text differs"))
+        # descriptors the parser adds to a prefix / suffix written without one sit where a following / preceding atom would bond
+        for tok_, text_, front in ((els[0], T["prefix"], False), (els[-1], T["suffix"], True)):
+            if text_ and type(tok_).__name__ == "SmilesToken" and tok_.bond_descriptors:
+                rr = token_reference("[1*]" + text_ if front else text_ + "[1*]")
+                want = rr["descriptors"][0][0]
+                bd_ = tok_.bond_descriptors[0] if front else tok_.bond_descriptors[-1]
+                c.prove(bd_.atom_bonding_to == want, "added descriptor sits on the atom a neighbouring atom would bond to",
+                        detail("the descriptor added to a prefix / suffix token sits on another atom than the one the text continues from"))
         d = st.distribution
         fam = {"gauss": "Gauss", "flory_schulz": "FlorySchulz", "schulz_zimm": "SchulzZimm", "uniform": "Uniform", "log_normal": "LogNormal", "poisson": "Poisson"}[T["dist"]]
         c.prove(type(d).__name__ == fam, "distribution family", detail("distribution family differs"))
@@ -481,7 +491,7 @@ def run_mixture_case(case, g, tier, res, on_path):
             v = c.fresh_int("m", 1, 100 if pct else 10**9)
             num = Num(v, "int")
         else:
-            v = c.fresh_real("m", 0, 100 if pct else None, lo_strict=True)
+            v = c.fresh_real("m", 0, 100 if pct else None, lo_strict=not pct)  # a percentage of exactly 0 is a value like any other
             num = Num(v, "float", style)
         via = c.fresh_int("via", 0, 2).__index__()
         b = " " * c.fresh_int("blank", 0, 1).__index__()
@@ -520,6 +530,7 @@ def run_mixture_case(case, g, tier, res, on_path):
 # concrete templates: bracket atoms, two-letter atoms, rings, against RDKit
 
 CONCRETE = [
+    "C=1([$])CCCC1[$]", "[$]CC([$])C=1CCCCC1", "[$]C1=CCCC1[$]",
     "[$]CC([$])C#N", "[$]C([H])(C#N)[$]", "[$]CC(C[$])(c1ccccc1)", "[$][Si]CC(c1ccccc1)[$]", "[<]C(=O)c1ccc(cc1)C(=O)[<]",
     "CC([>])(C[<])C(=O)OCC(O)CSc1c(F)cccc1F", "[<]CCl", "Br[>]", "[<]C1CC1[>]", "[>]C(Cl)(Br)C[<]", "[$]C[N+](C)(C)[$]", "C(=[$])C",
     "[<]CC(C)([>])C(=O)OC", "[<]C(C)(C)C(C)(C)[>]", "[$]C(C)(C)(C)", "C([<])(C)(C)[>]", "[<]CC(c1ccccc1)(C)[>]",
@@ -688,5 +699,11 @@ def replay(rp, gb):
         ws = [float(x) for x in re.findall(r"\|([0-9.e+-]+)\|\]", rp["text"])]
         if [t.bond_descriptors[-1].weight for t in st.repeat_tokens] != ws[: len(st.repeat_tokens)]:
             bad.append("weights")
+        for tok_, text_, front in ((els[0], T["prefix"], False), (els[-1], T["suffix"], True)):
+            if text_ and type(tok_).__name__ == "SmilesToken" and tok_.bond_descriptors:
+                rr = token_reference("[1*]" + text_ if front else text_ + "[1*]")
+                bd_ = tok_.bond_descriptors[0] if front else tok_.bond_descriptors[-1]
+                if bd_.atom_bonding_to != rr["descriptors"][0][0]:
+                    bad.append(f"added descriptor of {text_!r} on atom {bd_.atom_bonding_to}, the text continues from atom {rr['descriptors'][0][0]}")
         return bool(bad), f"{rp['text']}: {bad}"
     return False, "unknown"
